@@ -57,11 +57,23 @@ Theorem C16_print_parse :
   parse_raw (print c) = Ok (norm c) /\ parse_ref (print c) = Ok (norm_top c).
 Proof. exact print_parse. Qed.
 
-(* the parser model is a total function with four outcomes; on the fragment it never runs out of fuel
-   and never panics *)
-Theorem C16_model_total_on_fragment :
-  forall c : cq, pf c = true -> is_seq c = true -> parse_ref (print c) <> NoFuel /\ parse_ref (print c) <> Panicked.
-Proof. intros c H1 H2. destruct (print_parse c H1 H2) as [_ ->]. split; discriminate. Qed.
+(* Totality of the model.  parse_ref is a total Coq function with four outcomes (Ok, Err, Panicked,
+   NoFuel).  Under the shape of `literal` that is pinned from the sources
+   (QG_LITERAL_REJECTS_BARE_EXISTS = 1: an exists-leaf without a field name is a syntax error) it never
+   returns Panicked -- for EVERY string.  The proof re-runs on the regenerated pin: if `literal` goes
+   back to the old shape the obligation breaks. *)
+Theorem C16_model_total : forall s : str, parse_ref s <> Panicked.
+Proof. exact (no_panic_pinned eq_refl). Qed.
+
+(* the same fact, independent of the pin: whenever `literal` rejects, nothing else in the strict grammar
+   can panic *)
+Theorem C16_model_total_rejecting_shape : forall s : str, parse_ref_s true s <> Panicked.
+Proof. exact no_panic_rejecting. Qed.
+
+(* on the fragment of C16_print_parse the fuel of parse_ref is adequate *)
+Theorem C16_model_fuel_adequate_on_fragment :
+  forall c : cq, pf c = true -> is_seq c = true -> parse_ref (print c) <> NoFuel.
+Proof. intros c H1 H2. destruct (print_parse c H1 H2) as [_ ->]. discriminate. Qed.
 
 (* non-vacuity: a OR b AND c, with b and c matching, a not *)
 Example and_binds_tighter_example :
@@ -77,10 +89,11 @@ Example parse_example :
               (Some Should, Leaf (LLit None [99] DNone 0 false))]).
 Proof. vm_compute. reflexivity. Qed.
 
-(* F12: the strict grammar panics on "+<TAB>*" (UserInputLeaf::set_field's expect) *)
+(* F12 (fixed, commit 7a6b9829a): under the OLD shape of `literal` the strict grammar panics on
+   "+<TAB>*" (UserInputLeaf::set_field's expect); under the pinned shape the same text is a syntax error *)
 Theorem C16_strict_total_refuted :
-  F12_class [43;9;42] = true /\ parse_ref [43;9;42] = Panicked.
-Proof. vm_compute. split; reflexivity. Qed.
+  F12_class [43;9;42] = true /\ parse_ref_s false [43;9;42] = Panicked /\ parse_ref [43;9;42] = Err.
+Proof. vm_compute. repeat split; reflexivity. Qed.
 
 (* F160: "hello<LF>body:y" is read as one field name "hello<LF>body" *)
 Theorem C16_whitespace_separates_refuted :
@@ -94,6 +107,8 @@ Print Assumptions C16_occur_semantics.
 Print Assumptions C16_single_member.
 Print Assumptions C16_logical_ast_sem.
 Print Assumptions C16_print_parse.
-Print Assumptions C16_model_total_on_fragment.
+Print Assumptions C16_model_total.
+Print Assumptions C16_model_total_rejecting_shape.
+Print Assumptions C16_model_fuel_adequate_on_fragment.
 Print Assumptions C16_strict_total_refuted.
 Print Assumptions C16_whitespace_separates_refuted.
